@@ -670,7 +670,43 @@ thread_local! {
         .expect("tokio current-thread runtime");
 }
 
+static PLAIN_BLOCK_ON: std::sync::atomic::AtomicBool = std::sync::atomic::AtomicBool::new(false);
+
+/// Makes `block_on` drive its future with a plain poll loop inside the runtime's HANDLE context
+/// instead of `Runtime::block_on`. Binaries whose sections poll tasks by hand (`ManualExec`) call
+/// this first: inside `Runtime::block_on` a `tokio::task::yield_now()` of the code under test
+/// hands its wake-up to the runtime's scheduler, which never gets control while tasks are polled
+/// by hand - and when the yielding future sits inside a join combinator (`AndaDB::flush` over its
+/// collections) even a repeated poll of the task cannot reach it: the task looks blocked for
+/// ever (false "deadlock" / "call never returns" on the benign change C05-3). Outside the
+/// scheduler context tokio wakes such a waker at once. Timers and spawned tasks are not driven
+/// in this mode; the sections concerned use neither.
+pub fn use_plain_block_on() {
+    PLAIN_BLOCK_ON.store(true, std::sync::atomic::Ordering::SeqCst);
+}
+
+struct ThreadWaker(std::thread::Thread);
+impl std::task::Wake for ThreadWaker {
+    fn wake(self: std::sync::Arc<Self>) {
+        self.0.unpark();
+    }
+}
+
 /// Runs a future on this thread's private current-thread tokio runtime.
 pub fn block_on<F: std::future::Future>(f: F) -> F::Output {
+    if PLAIN_BLOCK_ON.load(std::sync::atomic::Ordering::SeqCst) {
+        return RT.with(|rt| {
+            let _guard = rt.enter();
+            let waker = std::task::Waker::from(std::sync::Arc::new(ThreadWaker(std::thread::current())));
+            let mut cx = std::task::Context::from_waker(&waker);
+            let mut f = std::pin::pin!(f);
+            loop {
+                if let std::task::Poll::Ready(v) = f.as_mut().poll(&mut cx) {
+                    return v;
+                }
+                std::thread::park_timeout(std::time::Duration::from_millis(2));
+            }
+        });
+    }
     RT.with(|rt| rt.block_on(f))
 }
